@@ -346,7 +346,7 @@ impl Publication {
                 log_buffer_descriptor::compute_term_begin_position(term_id, self.position_bits_to_shift, self.initial_term_id)
                     + term_offset;
 
-            if term_count != (term_id - self.initial_term_id) {
+            if term_count != term_id.wrapping_sub(self.initial_term_id) {
                 return Err(AeronError::AdminAction);
             }
 
@@ -485,7 +485,7 @@ impl Publication {
                 log_buffer_descriptor::compute_term_begin_position(term_id, self.position_bits_to_shift, self.initial_term_id)
                     + term_offset;
 
-            if term_count != (term_id - self.initial_term_id) {
+            if term_count != term_id.wrapping_sub(self.initial_term_id) {
                 return Err(AeronError::AdminAction);
             }
 
@@ -559,7 +559,7 @@ impl Publication {
                 log_buffer_descriptor::compute_term_begin_position(term_id, self.position_bits_to_shift, self.initial_term_id)
                     + term_offset;
 
-            if term_count != (term_id - self.initial_term_id) {
+            if term_count != term_id.wrapping_sub(self.initial_term_id) {
                 return Err(AeronError::AdminAction);
             }
 
